@@ -28,6 +28,8 @@ inductive Tree where
   | leaf (dtype : String) (shape : List Nat) (bytes : List Nat)
   | nontensor (data : String) (batch : List Nat)
   | node (batch : List Nat) (device : String) (kids : List (String × Tree))
+  /-- a lazy stack: the members, keyed by their index written in decimal (`"0"`, `"1"`, …) -/
+  | lazy (stackDim : Nat) (members : List (String × Tree))
   deriving Repr
 
 def numel (shape : List Nat) : Nat := shape.foldl (· * ·) 1
@@ -59,11 +61,17 @@ def metaEntry : Tree → MetaEntry
   | .leaf d s _ => .leaf d s
   | .nontensor .. => .coll "NonTensorData"
   | .node .. => .coll "TensorDict"
+  | .lazy .. => .coll "LazyStackedTensorDict"
 
 def nodeMeta (batch : List Nat) (device : String) (kids : List (String × Tree)) : Meta :=
   ⟨"TensorDict", batch, device, kids.map fun p => (p.1, metaEntry p.2), none⟩
 
 def ntMeta (data : String) (batch : List Nat) : Meta := ⟨"NonTensorData", batch, "None", [], some data⟩
+
+/-- meta.json of a lazy stack (tensordict/_lazy.py:LazyStackedTensorDict._memmap_.save_metadata):
+    `_type`, `stack_dim` and — after `fix: load_memmap of a lazy stack ignores the members of a longer
+    stack saved there before` — `len`; both numbers are carried in the `batch` field of `Meta`. -/
+def lazyMeta (stackDim n : Nat) : Meta := ⟨"LazyStackedTensorDict", [stackDim, n], "None", [], none⟩
 
 mutual
 /-- the writer tasks of the tensordict stored in directory `dir`, in submission order -/
@@ -72,6 +80,9 @@ def tasksTree (dir : Path) : Tree → List (Path × File)
   | .nontensor data batch => [(dir ++ ["meta.json"], .json (ntMeta data batch))]
   | .node batch device kids =>
     tasksKids dir kids ++ [(dir ++ ["meta.json"], .json (nodeMeta batch device kids))]
+  | .lazy sd members =>
+    -- `save_metadata` is submitted first, then every member saves itself under `dir/<index>`
+    (dir ++ ["meta.json"], .json (lazyMeta sd members.length)) :: tasksKids dir members
 /-- `for key, value in self.items()`: a leaf → `_populate_memmap` into `dir/<key>.memmap`
     (`torch.from_file(size=0)` creates **no** file for a tensor without elements); a collection →
     its own `_memmap_` under `dir/<key>` -/
@@ -81,6 +92,7 @@ def tasksKids (dir : Path) : List (String × Tree) → List (Path × File)
     (if numel s = 0 then [] else [(dir ++ [k ++ ".memmap"], File.bytes b)]) ++ tasksKids dir rest
   | (k, .nontensor d b) :: rest => tasksTree (dir ++ [k]) (.nontensor d b) ++ tasksKids dir rest
   | (k, .node b d ks) :: rest => tasksTree (dir ++ [k]) (.node b d ks) ++ tasksKids dir rest
+  | (k, .lazy sd ms) :: rest => tasksTree (dir ++ [k]) (.lazy sd ms) ++ tasksKids dir rest
 end
 
 /-- the executor: the submitted tasks complete in the order given -/
@@ -98,15 +110,21 @@ mutual
     file left by an earlier save is mapped over zero elements); a leaf entry **without file** is
     an empty tensor when its shape has no element (after `fix: load_memmap restores entries without
     elements`; skipped on the pinned tree) and skipped otherwise; a collection entry is loaded from
-    its sub-directory. -/
+    its sub-directory. A lazy stack (`_lazy.py:_load_memmap`) loads the sub-directories `0, 1, …`
+    while they exist **and their index is below the recorded `len`**. -/
 def load : Nat → FS → Path → Option Tree
   | 0, _, _ => none
   | fuel + 1, fs, dir =>
     match fs (dir ++ ["meta.json"]) with
     | some (.json m) =>
       if m.kind = "NonTensorData" then (m.payload.map fun d => Tree.nontensor d m.batch)
+      else if m.kind = "LazyStackedTensorDict" then
+        match m.batch with
+        | [sd, n] => (loadMembers fuel fs dir 0 n).map fun ms => Tree.lazy sd ms
+        | _ => none
       else (loadEntries fuel fs dir m.entries).map fun kids => Tree.node m.batch m.device kids
     | _ => none
+termination_by fuel _ _ => (fuel, 0, 0)
 def loadEntries : Nat → FS → Path → List (String × MetaEntry) → Option (List (String × Tree))
   | _, _, _, [] => some []
   | fuel, fs, dir, (k, .leaf dt sh) :: rest =>
@@ -123,6 +141,15 @@ def loadEntries : Nat → FS → Path → List (String × MetaEntry) → Option 
       match load fuel fs (dir ++ [k]) with
       | some t => some ((k, t) :: tl)
       | none => some tl   -- no such directory: `prefix.iterdir()` does not list it
+termination_by fuel _ _ es => (fuel, 1, es.length)
+/-- `while i < len and (prefix / str(i)).exists(): load(prefix / str(i))`; `r` = `len - i` -/
+def loadMembers : Nat → FS → Path → Nat → Nat → Option (List (String × Tree))
+  | _, _, _, _, 0 => some []
+  | fuel, fs, dir, i, r + 1 =>
+    match load fuel fs (dir ++ [toString i]) with
+    | none => some []
+    | some t => (loadMembers fuel fs dir (i + 1) r).map fun tl => (toString i, t) :: tl
+termination_by fuel _ _ _ r => (fuel, 1, r)
 end
 
 mutual
@@ -131,6 +158,7 @@ def depth : Tree → Nat
   | .leaf .. => 0
   | .nontensor .. => 1
   | .node _ _ kids => depthKids kids + 1
+  | .lazy _ ms => depthKids ms + 1
 def depthKids : List (String × Tree) → Nat
   | [] => 0
   | (_, t) :: rest => max (depth t) (depthKids rest)
@@ -142,6 +170,7 @@ def likeTree : Tree → Tree
   | .leaf d s b => .leaf d s (zeros b.length)
   | .nontensor d b => .nontensor d b
   | .node b d kids => .node b d (likeKids kids)
+  | .lazy sd ms => .lazy sd (likeKids ms)
 def likeKids : List (String × Tree) → List (String × Tree)
   | [] => []
   | (k, t) :: rest => (k, likeTree t) :: likeKids rest
@@ -177,6 +206,8 @@ def PathSafe : Tree → Prop
   | .nontensor .. => True
   | .node _ _ kids =>
     ((kids.map entryName) ++ ["meta.json"]).Nodup ∧ (∀ p ∈ kids, ¬ p.1.contains '/') ∧ PathSafeKids kids
+  | .lazy _ ms =>
+    ((ms.map entryName) ++ ["meta.json"]).Nodup ∧ (∀ p ∈ ms, ¬ p.1.contains '/') ∧ PathSafeKids ms
 def PathSafeKids : List (String × Tree) → Prop
   | [] => True
   | (_, t) :: rest => PathSafe t ∧ PathSafeKids rest
